@@ -371,7 +371,7 @@ Proof.
           rewrite (opt_err (p_blank lf)) by (now apply identch_not_blank). cbn [pbind]. apply pbind_err.
           change sym_map_lt with [x3c]. now apply identch_not_lt. }
     cbn [alt]. unfold pmap. change (h ++ pr_path_tail tl k) with (pr_path (mkCPath h tl) k).
-    rewrite (rt_path lf whole Hlf (mkCPath h tl) k Hwp (conj Hk1 (follow_nodot _ k Hf ltac:(sfx_of S))) S). reflexivity.
+    rewrite (rt_path lf whole Hlf (mkCPath h tl) k Hwp (conj Hk1 (or_introl (follow_nodot _ k Hf ltac:(sfx_of S)))) S). reflexivity.
 Qed.
 
 (* Type::parse inverts the printing of every type under every layout *)
